@@ -109,6 +109,13 @@ func c14Check(c c14Case) vfResult {
 				}
 			}
 		}
+		if flags["extend-called-on-a-returned-value"] {
+			for _, n := range []string{"application/x-verif-onresult", "application/x-verif-onresult-parent", "application/x-verif-onresult-alias"} {
+				if l := Lookup(n); l != nil {
+					return fmt.Errorf("after step %d: Lookup(%q) finds %s although that name was only ever passed to Extend on a value RETURNED by a detection (a detached copy), never to a registered format", step, n, vfChainStr(l))
+				}
+			}
+		}
 		for _, h := range held {
 			if now := vfChain(h.m); !vfChainEq2(now, h.chain) {
 				return fmt.Errorf("after step %d: a value returned earlier changed from %s to %s", step, vfChainFmt(h.chain), vfChainFmt(now))
@@ -143,11 +150,13 @@ func c14Check(c c14Case) vfResult {
 			}
 		case "extend-result":
 			// Extend on a value returned earlier: it is a clone, the registered formats must not change
-			if len(held) > 0 {
-				h := held[len(held)-1].m
+			// (the results of the last detections of every pool input: text with and without charset,
+			// binary formats, results below extensions - and every ancestor of each of them)
+			for k := len(held) - 1; k >= 0 && k >= len(held)-len(pool); k-- {
+				h := held[k].m
 				h.Extend(func([]byte, uint32) bool { return true }, "application/x-verif-onresult", ".onr")
-				if p := h.Parent(); p != nil {
-					p.Extend(func([]byte, uint32) bool { return true }, "application/x-verif-onresult-parent", ".onp")
+				for p, d := h.Parent(), 0; p != nil && d < 8; p, d = p.Parent(), d+1 {
+					p.Extend(func([]byte, uint32) bool { return true }, "application/x-verif-onresult-parent", ".onp", "application/x-verif-onresult-alias")
 				}
 				flags["extend-called-on-a-returned-value"] = true
 			}
@@ -237,6 +246,40 @@ func c14Gen(t *rapid.T) c14Case {
 		}
 		x := c.Pool[0]
 		c.Steps = append(c.Steps, c14Step{Op: "probe", X: x, Lim: vfGenLimit(t, len(x))})
+		return c
+	}
+	if rapid.IntRange(0, 59).Draw(t, "deeptree") == 0 {
+		// a family 7-10 levels deep that BRANCHES low down: a trunk of `trunk` levels, then two
+		// siblings whose descendants are registered alternately; inputs VFa... / VFb... reach the
+		// leaves of either branch
+		trunkParent := rapid.SampledFrom([]string{"", "text/plain", "application/zip"}).Draw(t, "trunkparent")
+		trunk := rapid.IntRange(3, 7).Draw(t, "trunk")
+		parent := trunkParent
+		k := 0
+		add := func(parent string, pred vfPred, tag string) string {
+			e := vfExt{Parent: parent, Mime: fmt.Sprintf("application/x-verif-%d%s", k, tag), Ext: fmt.Sprintf(".vf%d%s", k, tag), Pred: pred}
+			k++
+			ec := e
+			c.Steps = append(c.Steps, c14Step{Op: "extend", Ext: &ec})
+			return e.Mime
+		}
+		for i := 0; i < trunk; i++ {
+			parent = add(parent, vfPred{Kind: "prefix", Arg: vfB("VF")}, "")
+		}
+		pa, pb := add(parent, vfPred{Kind: "prefix", Arg: vfB("VFa")}, "a"), add(parent, vfPred{Kind: "prefix", Arg: vfB("VFb")}, "b")
+		for i, n := 0, rapid.IntRange(1, 4).Draw(t, "branchdepth"); i < n; i++ {
+			pa = add(pa, vfPred{Kind: "prefix", Arg: vfB("VFa")}, "a")
+			pb = add(pb, vfPred{Kind: "prefix", Arg: vfB("VFb")}, "b")
+		}
+		for _, in := range []string{"VFa: text body", "VFb: text body", "VFaPK\x03\x04", "VF: neither branch", "PK\x03\x04VFb"} {
+			c.Pool = append(c.Pool, vfB(in))
+			c.Steps = append(c.Steps, c14Step{Op: "probe", X: vfB(in), Lim: 0})
+		}
+		if trunkParent == "application/zip" {
+			for _, in := range []string{"PK\x03\x04", "PK\x03\x04VFa"} {
+				c.Pool = append(c.Pool, vfB(in))
+			}
+		}
 		return c
 	}
 	if rapid.IntRange(0, 149).Draw(t, "many") == 0 {
